@@ -24,6 +24,7 @@ func scanConcurrentCmd(args []string) int {
 	n := fs.Int("n", 14, "keys")
 	mem := fs.Int64("mem", 200, "memtable size")
 	ranged := fs.Bool("range", false, "use a range iterator covering all keys")
+	memOnly := fs.Bool("memonly", false, "no flush and no compaction at all: everything the scan shows comes from the one memory table the writers keep inserting into")
 	seeks := fs.Bool("seeks", false, "start the scan with Seek and re-seek forward now and then (instead of SeekToFirst/Next only)")
 	fs.Parse(args)
 	stderr := os.Stderr
@@ -57,7 +58,7 @@ func scanConcurrentCmd(args []string) int {
 				return 3
 			}
 		}
-		if rng.Intn(5) == 0 {
+		if rng.Intn(5) == 0 && !*memOnly {
 			eng.FlushImMemTables()
 		}
 	}
@@ -91,6 +92,7 @@ func scanConcurrentCmd(args []string) int {
 						recent = p
 					}
 				}
+			case *memOnly:
 			case r < 8:
 				eng.FlushImMemTables()
 				log.ev(map[string]interface{}{"e": "flush"})
